@@ -119,7 +119,10 @@ class Outcome:
 
 
 class Interp:
-    def __init__(self, world, body, models=None, observe_calls=True, max_paths=20000, sym_types=None):
+    def __init__(self, world, body, models=None, observe_calls=True, max_paths=20000, sym_types=None,
+                 summaries=None, depth=0):
+        self.summaries = summaries
+        self.depth = depth
         self.world = world
         self.body = body
         self.cfg = cfgmod.cfg_of(body)
@@ -516,6 +519,8 @@ class Interp:
                     return [(s2, B(not bv)) for s2, bv in self.split_bool(st, a)]
             if rv["op"] == "Neg" and a[0] == "i":
                 return [(st, I(-a[1]))]
+            if rv["op"] == "Neg":
+                return [(st, ("expr", "Sub", I(0), a))]
             if rv["op"] == "PtrMetadata":
                 return [(st, SYM("len:%s" % (a[1] if a[0] == "ref" else site,) if a[0] != "ref" else "len:" + pstr(a[1])))]
             return [(st, SYM("op:%s:%s" % (rv["op"], site)))]
@@ -603,7 +608,8 @@ class Interp:
             self._havoc(s0, (("L", l),), "loop%d" % h)
         mem = set()
         for _round in range(4):
-            sub = Interp(self.world, self.body, models=None, max_paths=4000, sym_types=self.sym_types)
+            sub = Interp(self.world, self.body, models=None, max_paths=4000, sym_types=self.sym_types,
+                         summaries=self.summaries, depth=self.depth)
             sub.models = self.models
             sub._loops_cache = self._loops()
             probe = s0.fork()
@@ -817,17 +823,33 @@ class Interp:
                     s2.trace = s2.trace + (("call", bb, name, tuple(args)),)
                     outs.append((s2, rv))
                 return outs
-        # unmodelled: havoc &mut arguments, fresh result
+        # unmodelled: havoc &mut arguments (only what the callee's summary says it may write, when the
+        # callee is a workspace function), fresh result
         s2 = st.fork()
         self.unmodelled.add(name)
+        written = None
+        if self.summaries is not None and name and self.world.body(name) is not None:
+            pfs = self.summaries.paths(name, self.depth + 1)
+            if pfs:
+                written = set()
+                for pf in pfs:
+                    written |= pf.written
         for i, a in enumerate(t["args"]):
             p = a.get("copy") or a.get("move")
             if p is None:
                 continue
             lt = self.body.locals[p["local"]]
             if not p["proj"] and lt["tk"] == "refmut" and args[i][0] == "ref":
-                self._havoc(s2, args[i][1], "%d.a%d" % (bb, i))
-                s2.trace = s2.trace + (("havoc", bb, args[i][1], name),)
+                if written is None:
+                    self._havoc(s2, args[i][1], "%d.a%d" % (bb, i))
+                    s2.trace = s2.trace + (("havoc", bb, args[i][1], name),)
+                else:
+                    root = (("A", i + 1),)
+                    for q in sorted(written):
+                        if q[:1] == root:
+                            tgt = args[i][1] + q[1:]
+                            self._havoc(s2, tgt, "%d.a%d%s" % (bb, i, pstr(q[1:])))
+                            s2.trace = s2.trace + (("havoc", bb, tgt, name),)
         s2.trace = s2.trace + (("call", bb, name, tuple(args)),)
         dl = t["dest"]
         rv = SYM("ret:%d" % bb)
